@@ -186,6 +186,25 @@ pub fn run(ctx: &Ctx) -> i32 {
                 }
             }
             {
+                // re-parse through a reader that returns 3 bytes per read
+                struct Slow<'a>(&'a [u8]);
+                impl std::io::Read for Slow<'_> {
+                    fn read(&mut self, buf: &mut [u8]) -> std::io::Result<usize> {
+                        let n = buf.len().min(3).min(self.0.len());
+                        buf[..n].copy_from_slice(&self.0[..n]);
+                        self.0 = &self.0[n..];
+                        Ok(n)
+                    }
+                }
+                let b = bytes_of(&s.pkg);
+                let r = catch(|| rpm::Package::parse(&mut std::io::BufReader::with_capacity(3, Slow(&b))));
+                match r {
+                    Ok(Ok(p)) => out.push(("write+parse(3-byte reads)".to_string(), St { pkg: p, last: s.last, reparsed: true, start: s.start })),
+                    Ok(Err(e)) => acc.viol(Violation::new("histories", format!("the written package does not parse from a reader that returns 3 bytes at a time: {}", e), json!({"history": node.path, "op": "write+parse(3-byte reads)"})).sig("clause", "operation-fails").sig("op", "write+parse(3-byte reads)")),
+                    Err(pn) => acc.viol(panic_violation("histories", &pn, json!({"history": node.path, "op": "write+parse(3-byte reads)"}))),
+                }
+            }
+            {
                 let b = bytes_of(&s.pkg);
                 match parse_pkg(&b) {
                     Ok(Ok(p)) => out.push(("write+parse".to_string(), St { pkg: p, last: s.last, reparsed: true, start: s.start })),
